@@ -426,6 +426,17 @@ def build_app(app_d, mode, static_dir):
             mw = mw[0]
     cls = falcon.asgi.App if asyn else falcon.App
     app = cls(middleware=mw, independent_middleware=app_d.get('independent', True), **kw)
+    for op in app_d.get('late') or ():
+        # components added after construction; with cors_enable a second CORS component is documented to be refused -
+        # whatever add_middleware() does with it, the policy in force stays the one the app was constructed with
+        if op[0] == 'cors_rejected':
+            if mode == 'cors' and app_d['via'] == 'flag':
+                try:
+                    app.add_middleware(falcon.CORSMiddleware(allow_origins=[D_, A_], allow_credentials='*', expose_headers='X-Leak'))
+                except ValueError:
+                    pass
+        else:
+            app.add_middleware(mwc({'resp': ['set', 'X-Late-%d' % len(op), '1']}))
     t = app_d['target']
     if t in ('route', 'route_opt', 'unrouted'):
         app.add_route('/res', _make_resource(app_d, asyn))
@@ -836,6 +847,14 @@ class SampledStack(_StaticDirMixin, Suite):
         return Info(rq['origin'] is not None and (differs or denied), lb)
 
 
+# origins beyond the moderate range (RFC 6454 sets no length bound): a configured one of 324 characters and look-alikes
+# that agree with it on their first 256 / 323 / 324 characters, and one of 70 000 characters
+LONG_ = 'https://' + '.'.join(['tenant-%02d-abcdefghijklmnopqrstuvwxyz' % i for i in range(9)]) + '.long-origin.example'
+LONG_ORIGINS = [LONG_, LONG_ + '.evil.example', LONG_[:-1], LONG_[:300] + 'x' + LONG_[301:], LONG_[:256] + '.evil.example',
+                'https://' + 'a' * 70000 + '.example']
+assert len(LONG_) > 300
+
+
 class RequestHistory(_StaticDirMixin, Suite):
     """One app instance (one CORS component instance) serves a HISTORY of 2-5 requests with different origins and kinds
     (credentialed origin first and a merely allowed one afterwards, preflights between simple requests, ...): every response
@@ -851,6 +870,9 @@ class RequestHistory(_StaticDirMixin, Suite):
         cfgs += [({'ao': [], 'ac': None, 'eh': None}, 'mw', 'alone'), ({'ao': [], 'ac': '*', 'eh': 'X-One'}, 'mw', 'alone'),
                  ({'ao': [], 'ac': [A_], 'eh': None, 'container': 'tuple'}, 'mw', 'between'),
                  ({'ao': [], 'ac': None, 'eh': None, 'container': 'frozenset'}, 'mw', 'alone')]
+        n_plain = len(cfgs)
+        cfgs += [({'ao': [LONG_, A_], 'ac': [LONG_], 'eh': 'X-One'}, 'mw', 'alone'), ({'ao': LONG_, 'ac': None, 'eh': None}, 'mw', 'between'),
+                 ({'ao': [A_, LONG_ + '.evil.example'], 'ac': [A_], 'eh': None}, 'mw', 'alone')]
 
         def mk(origin, kind, split):
             rq = {'origin': origin, 'method': kind[0], 'acrm': kind[1], 'acrh': kind[2]}
@@ -861,13 +883,17 @@ class RequestHistory(_StaticDirMixin, Suite):
             return rq
         rq = st.builds(mk, st.sampled_from(ORIGINS + [B_, A_, C_]), st.sampled_from(CORE_KINDS),
                        st.sampled_from([None, None, None, None, D_, 'https://x.example']))
+        rq_long = st.builds(mk, st.sampled_from(LONG_ORIGINS + LONG_ORIGINS[:3] + [A_]), st.sampled_from(CORE_KINDS), st.none())
+        plain = st.tuples(st.integers(0, n_plain - 1), st.lists(rq, min_size=2, max_size=5))
+        long_ = st.tuples(st.integers(n_plain, len(cfgs) - 1), st.lists(rq_long, min_size=2, max_size=5))
         return st.builds(
-            lambda ci, cell, stack, rqs: {
-                'app': {'stack': stack, 'via': cfgs[ci][1], 'cfg': cfgs[ci][0], 'before': SURROUND[cfgs[ci][2]][0],
+            lambda ci_rqs, cell, stack, late: (lambda ci, rqs: {
+                'app': {'stack': stack, 'late': late if cfgs[ci][1] == 'flag' else None, 'via': cfgs[ci][1], 'cfg': cfgs[ci][0], 'before': SURROUND[cfgs[ci][2]][0],
                         'after': SURROUND[cfgs[ci][2]][1], 'target': cell[0], 'allow': cell[1], 'outcome': cell[2]},
-                'rqs': rqs},
-            st.integers(0, len(cfgs) - 1), st.sampled_from(TARGET_CELLS), st.sampled_from(['wsgi', 'asgi']),
-            st.lists(rq, min_size=2, max_size=5))
+                'rqs': rqs})(*ci_rqs),
+            st.one_of(plain, plain, plain, long_), st.sampled_from(TARGET_CELLS), st.sampled_from(['wsgi', 'asgi']),
+            st.sampled_from([None, [['cors_rejected'], ['plain']], [['plain'], ['cors_rejected'], ['plain', 2]], [['cors_rejected']],
+                             [['cors_rejected'], ['cors_rejected'], ['plain']]]))
 
     def run(self, case):
         app_d = case['app']
